@@ -234,3 +234,40 @@ func (c *Ctx) recordUF(name string, in []*Term, res []*Term) {
 	}
 	c.ufApps[name] = append(c.ufApps[name], ufApp{args: in, res: res})
 }
+
+// applyUFRange: single-result uninterpreted function with an explicit result range.
+func (c *Ctx) applyUFRange(name string, in []*Term, lo, hi *big.Int) *Term {
+	apps := c.ufApps[name]
+	for _, ap := range apps {
+		if len(ap.args) == len(in) {
+			same := true
+			for i := range in {
+				if ap.args[i] != in[i] && !(ap.args[i].Op == OpConst && in[i].Op == OpConst && ap.args[i].Val.Cmp(in[i].Val) == 0) {
+					same = false
+					break
+				}
+			}
+			if same {
+				return ap.res[0]
+			}
+		}
+	}
+	res := c.newIntVar(fmt.Sprintf("uf_%s_%d", name, len(apps)), lo, hi)
+	if c.concrete == nil {
+		for _, ap := range apps {
+			if len(ap.args) != len(in) {
+				continue
+			}
+			eqIn := TTrue
+			for i := range in {
+				eqIn = And(eqIn, Eq(ap.args[i], in[i]))
+			}
+			if eqIn != TFalse {
+				c.addPC(Or(Not(eqIn), Eq(ap.res[0], res)))
+			}
+		}
+		c.model = nil
+	}
+	c.ufApps[name] = append(apps, ufApp{args: in, res: []*Term{res}})
+	return res
+}
